@@ -148,7 +148,7 @@ func Damage(r *core.Rng, src string) (string, string) {
 		}
 		return ix
 	}
-	switch op := r.Intn(16); op {
+	switch op := r.Intn(18); op {
 	case 0: // truncate at a byte
 		if len(src) == 0 {
 			return src, "truncate(empty)"
@@ -309,6 +309,33 @@ func Damage(r *core.Rng, src string) (string, string) {
 			}
 		}
 		return strings.Join(toks, ""), fmt.Sprintf("drop-punct(%q x%d)", p, k)
+	case 15, 16: // the file ends inside a construct: cut at a token, then a few tokens that close nothing
+		ix := nonSpace()
+		if len(ix) < 2 {
+			return src, "noop"
+		}
+		// prefer a cut shortly after the start of a construct
+		var starts []int
+		for k, i := range ix {
+			switch toks[i] {
+			case "match", "interface", "struct", "enum", "fn", "=>", "{", "(", "[", "if", "while", "for", "catch", "import", "type", "let":
+				starts = append(starts, k)
+			}
+		}
+		k := r.Intn(len(ix))
+		if len(starts) > 0 && r.Chance(3, 4) {
+			k = core.Pick(r, starts) + r.Intn(6)
+			if k >= len(ix) {
+				k = len(ix) - 1
+			}
+		}
+		head := strings.Join(toks[:ix[k]+1], "")
+		var tail []string
+		opener := []string{"fn", "let", "=", "=>", "->", "::", ".", ":", "(", "[", "{", "x", "1", "\"s\"", "match", "if", "&'", "&", "!", "?", "as", "in", "catch", "return", "struct", "interface", "enum", "type", "..", "fn helper", "x = fn f", "x = { y"}
+		for n := r.Intn(5); n > 0; n-- {
+			tail = append(tail, core.Pick(r, opener))
+		}
+		return head + " " + strings.Join(tail, " "), fmt.Sprintf("cut-inside-construct(+%d tokens)", len(tail))
 	default: // join two statements / split a line
 		lines := strings.Split(src, "\n")
 		if len(lines) < 2 {
@@ -375,4 +402,109 @@ func damageImports(r *core.Rng, p *Project, n string) string {
 		p.Files[n] = "import \"q/hidden\";\n" + strings.Replace(src, "fn main() {", "fn main() {\n    let zz := hidden::secret();", 1)
 		return "use-unexported"
 	}
+}
+
+// KitchenSink is a program that touches every syntactic construct with a
+// dedicated recovery path in the parser: it is the base of C13's truncation
+// sweep (every token boundary, plus a few tokens that close nothing).
+const KitchenSink = `import "std/io";
+
+type Shape interface {
+    area() -> i32,
+    name() -> str,
+};
+
+type Point struct {
+    .X: i32,
+    .Y: i32
+};
+
+type Status enum {
+    Pending,
+    Active,
+    Done
+};
+
+fn (p: Point) area() -> i32 {
+    return p.X * p.Y;
+}
+
+fn (p: &'Point) grow(n: i32) {
+    p.X += n;
+}
+
+fn divide(a: i32, b: i32) -> str ! i32 {
+    if b == 0 {
+        return "division by zero"!;
+    }
+    return a / b;
+}
+
+fn pick(s: Status, k: i32) -> i32 {
+    match s {
+        Status::Pending => { return 0; }
+        Status::Active => { return k; }
+        _ => { return -1; }
+    }
+}
+
+fn main() {
+    let p: Point = { .X = 2, .Y = 3 };
+    let q := { .X = 1, .Y = 1 } as Point;
+    let nums := [1, 2, 3];
+    append(&'nums, 4);
+    let scores := { "a" => 1, "b" => 2 } as map[str]i32;
+    let add := fn(y: i32) -> i32 {
+        return y + p.X;
+    };
+    let opt: i32? = none;
+    let ok := divide(10, 2) catch -1;
+    let fb := divide(1, 0) catch e {
+        io::Println(e);
+    } 7;
+    let i: i32 = 0;
+    while i < 3 {
+        if i == 1 {
+            i += 1;
+            continue;
+        } else if i == 2 {
+            break;
+        }
+        i += 1;
+    }
+    for k, v in scores {
+        io::Println(k);
+        io::Println(v);
+    }
+    match ok {
+        5 => { io::Println("five"); }
+        _ => { io::Println(nums[-1] + add(q.area()) + pick(Status::Active, fb)); }
+    }
+    let an: struct { .A: i32, .B: str } = { .A = 1, .B = "x" };
+    io::Println(an.A);
+    io::Println(opt ?? 0);
+}
+`
+
+// TruncationSweep returns projects for the truncation sweep: the base program
+// cut after every step-th token, alone and followed by a tail that closes nothing.
+func TruncationSweep(r *core.Rng, base string, step int, tails int) []Project {
+	toks := tokenise(base)
+	var cuts []int
+	for i, t := range toks {
+		if strings.TrimSpace(t) != "" {
+			cuts = append(cuts, i)
+		}
+	}
+	tailPool := []string{"fn helper", "x = fn f", "x = { y", "fn", "=>", "(", "[", "{", "::", ".", "=", ":", "->", "let", "match x {", "1 =>", "if", "&'", "catch", "\"open", "'", "/*", "as", "..", "@", "?", "type T interface { fn f() -> i32;", "fn area() -> f64;"}
+	var out []Project
+	off := r.Intn(step)
+	for k := off; k < len(cuts); k += step {
+		head := strings.Join(toks[:cuts[k]+1], "")
+		out = append(out, Project{Dir: "q", Entry: "main.fer", Files: map[string]string{"main.fer": head}})
+		for t := 0; t < tails; t++ {
+			out = append(out, Project{Dir: "q", Entry: "main.fer", Files: map[string]string{"main.fer": head + " " + core.Pick(r, tailPool)}})
+		}
+	}
+	return out
 }
